@@ -119,3 +119,102 @@ def call_polarity(g, name_regex):
     return False
 
   return pol if head_call(atom) else None
+
+
+def conjuncts(body, op, depth=0):
+  """If `op` is a bool materialised from a short-circuit `a && b && ..` (MIR: the temp is assigned `false` on the false
+  edge of each earlier term and the last term's value otherwise), return [(atom, switch_bb or None), ...] of the terms;
+  otherwise None."""
+  from .facts import op_local, describe_cond, describe_operand
+  l = op_local(op)
+  if l is None or depth > 4:
+    return None
+  defs = [d for d in body.defs().get(l, []) if d['kind'] in ('assign', 'call') and not d['proj']]
+  if len(defs) < 2:
+    return None
+  falses = [d for d in defs if d['kind'] == 'assign' and d['rv']['k'] == 'use' and body.const_of(d['rv']['o']) is False]
+  others = [d for d in defs if d not in falses]
+  if not falses or len(others) != 1:
+    return None
+  preds = body.preds()
+  terms = []
+  for d in falses:
+    # walk back over goto-only predecessors to the switch whose false edge leads here
+    bb = d['bb']
+    seen = set()
+    found = None
+    work = [bb]
+    while work:
+      x = work.pop()
+      for p in preds.get(x, []):
+        if p in seen:
+          continue
+        seen.add(p)
+        t = body.term(p)
+        if t['k'] == 'switch' and t.get('dty') == 'bool':
+          for lab, tgt in body.switch_edges(p):
+            if tgt == x and lab == 0:
+              found = p
+        elif t['k'] == 'goto':
+          work.append(p)
+    if found is None:
+      return None
+    terms.append((describe_cond(body, body.term(found)['d']), found))
+  o = others[0]
+  if o['kind'] == 'assign':
+    rv = o['rv']
+    if rv['k'] in ('bin', 'un'):
+      from .facts import _normalize_cond, describe_place
+      terms.append((_normalize_cond(describe_place(body, {'l': l}) if False else _desc_rv(body, rv)), None))
+    elif rv['k'] == 'use':
+      sub = conjuncts(body, rv['o'], depth + 1)
+      if sub:
+        terms += sub
+      else:
+        terms.append((describe_cond(body, rv['o']), None))
+    else:
+      return None
+  else:
+    c = o['call']
+    from .facts import _normalize_cond
+    terms.append((_normalize_cond(('call', c.name, tuple(describe_operand(body, a, 1) for a in c.args))), None))
+  return terms
+
+
+def _desc_rv(body, rv):
+  from .facts import describe_operand
+  if rv['k'] == 'bin':
+    return ('bin', rv['op'], describe_operand(body, rv['a'], 1), describe_operand(body, rv['b'], 1))
+  return ('un', rv['op'], describe_operand(body, rv['o'], 1))
+
+
+def expand(body, guards):
+  """replace guards on a materialised conjunction that must be TRUE for the sink by one CmpGuard per conjunct"""
+  from .facts import op_local, single_def
+  out = []
+  for g in guards:
+    d = body.term(g.bb)['d']
+    pol = g.pol
+    # look through not(..) wrappers
+    cur = d
+    for _ in range(4):
+      l = op_local(cur)
+      df = single_def(body, l) if l is not None else None
+      if df and df['kind'] == 'call' and (df['call'].name or '').endswith('::not') and len(df['call'].args) == 1:
+        cur = df['call'].args[0]
+        pol = (not pol) if pol is not None else None
+        continue
+      if df and df['kind'] == 'assign' and df['rv']['k'] == 'un' and df['rv']['op'] == 'Not':
+        cur = df['rv']['o']
+        pol = (not pol) if pol is not None else None
+        continue
+      break
+    cj = conjuncts(body, cur) if pol is True else None
+    if cj:
+      for atom, sw in cj:
+        ng = CmpGuard(body, g.bb, atom, True, g.live, g.dead)
+        ng.term_bb = sw
+        out.append(ng)
+    else:
+      out.append(g)
+  return out
